@@ -10,6 +10,7 @@ CONSTANTS
   MaxDepth = 2
   MaxTransfers = 3
   Deploys = FALSE
+  Balances = FALSE
   KnownDefects <- NoneOn
   Log <- LogLast
   StepBound = 0
